@@ -136,6 +136,23 @@ class C10Episode(Episode):
     def attributed(self, p, a, b):
         return False
 
+    def finish(self):
+        super().finish()
+        w = self.world
+        if self.aborted == 'no_quiescence' and w is not None and \
+                not w.daemon_gone():
+            a = w.arbiter
+            slot = a._exclusive_running_command
+            if slot is not None and slot != 'manage_watchers':
+                # faults have stopped, half an hour of virtual time has
+                # passed, and the same operation still holds the slot
+                self.aborted = None
+                self.viol('slot_never_freed',
+                          'the operation %r still holds the slot %.0f virtual '
+                          'seconds after the last request (no fault pending)'
+                          % (slot, self.cfg.get('final_max_dt', 1800.0)),
+                          once='slot', slot=str(slot))
+
     def final(self):
         self.judge()
         w = self.world
@@ -219,6 +236,14 @@ class C10(Prop):
             s = rng.randrange(1, 12)
             cfg['exec_fail'] = {str(s + i): 2 for i in range(rng.choice(
                 [1, 2, 6]))}
+        if rng.random() < 0.1:
+            # an operation that ends with an error in the middle of its
+            # work: signalling a worker fails with EPERM (a worker that
+            # changed its credentials). Whatever state that leaves, the slot
+            # is freed and later requests are accepted and end
+            s = rng.randrange(1, 8)
+            cfg['signal_fail'] = {str(s + i): 1 for i in range(rng.choice(
+                [1, 1, 2]))}
         return cfg
 
     def gen_ini_case(self, rng, seed):
@@ -319,6 +344,12 @@ class C10(Prop):
             ops.append(rng.choice([{'op': 'quiet', 'checks': 0},
                                    {'op': 'wait', 'kind': 'replies'},
                                    {'op': 'wait', 'kind': 'steps', 'n': 3}]))
+        if cfg.get('signal_fail'):
+            # (not into a shutdown: a quit that cannot signal a worker has no
+            # good way to end, and the statement does not say which)
+            for op in ops:
+                if op['op'] == 'req' and op['cmd'] == 'quit':
+                    op['cmd'] = 'stop'
         return {'cfg': cfg, 'ops': ops}
 
     def enum_cases(self, tier, master):
